@@ -2,6 +2,7 @@ package props
 
 import (
 	"bytes"
+	"errors"
 	"fmt"
 	"io"
 	"strings"
@@ -121,6 +122,21 @@ func wrapDef(inner lexer.Definition, rec *recorder) lexer.Definition {
 		return &recDefS{recDef{inner, rec}}
 	}
 	return &recDef{inner, rec}
+}
+
+// failingReader hands out its data and then fails (not with io.EOF).
+type failingReader struct {
+	data []byte
+	off  int
+}
+
+func (f *failingReader) Read(p []byte) (int, error) {
+	if f.off >= len(f.data) {
+		return 0, errors.New("read failed")
+	}
+	n := copy(p, f.data[f.off:])
+	f.off += n
+	return n, nil
 }
 
 type namedReader struct {
@@ -363,6 +379,11 @@ func c15Child(c *mon.Child) {
 				eps = append(eps, ep{"Parse(filename, reader with another name)", func() (interface{}, error) {
 					return b.Parse(fname, namedReader{strings.NewReader(text), "other-name.txt"}, po...)
 				}})
+			}
+			if ii%5 == 2 && len(text) > 1 {
+				// an earlier call on the same parser whose reader failed part-way must leave nothing behind
+				mon.Guard(func() { _, _ = b.Parse(fname, &failingReader{data: []byte(text[:len(text)/2+1])}) })
+				c.Feature("inputs_preceded_by_a_parse_whose_reader_failed")
 			}
 			var base realResult
 			var baseCanon, baseErr string
